@@ -67,9 +67,9 @@ job("r0.native.bn_digit_mult__int.w16.port", "native_digit16.c", ["BN_DIGIT_BIT_
     bound="exhaustive native enumeration of all 2^32 operand pairs at W = 16, portable body (not a deductive obligation)")
 
 # ------------------------------------------------------------------ rung 1 (a): digit arrays, unbounded safety
-def loops_file(key, fns, maxd=None):
+def loops_file(key, fns, maxd=None, variant=None):
     path = os.path.join(VERIF, "loops", "bn_%s.json" % key)
-    json.dump(compose(fns, maxd), open(path, "w"), indent=1)
+    json.dump(compose(fns, maxd, variant), open(path, "w"), indent=1)
     return "loops/bn_%s.json" % key
 
 R1A = {  # fn -> functions with loops reachable from it
@@ -82,15 +82,16 @@ SAFETY_ASSUME = ["unbounded digit-array jobs: arrays are exact-size heap objects
 for W in (8, 16, 32, 64):
     tier = "quick" if W in (8, 64) else "thorough"
     for fn, lf in R1A.items():
-        if fn in ("l_shift", "r_shift"):
-            continue  # memmove/memset with symbolic length: unbounded safety does not close (not_covered); value jobs below
+        if fn in ("l_shift", "r_shift") and W != 8:
+            continue  # memmove/memset with symbolic length: attempted at W = 8 only (thorough, no trace)
         full = "bn_digits_" + fn
         kw = {}
         if lf:
             kw["loops"] = loops_file("digits_" + fn, lf)
         job("r1a.%s.safety.w%d" % (full, W), "digits.c",
             cfg(W, True, extra=["VF_FN_" + fn, "VF_BN_SAFETY_ONLY"]),
-            enforce=[full], functions=[full], route="unbounded", tier=tier, timeout=240,
+            enforce=[full], functions=[full], route="unbounded", tier=tier if fn not in ("l_shift", "r_shift") else "thorough",
+            timeout=240 if fn not in ("l_shift", "r_shift") else 2700, trace=(fn not in ("l_shift", "r_shift")),
             assumptions=SAFETY_ASSUME, foreach=[{"SZ": W // 8}], **kw)
 
 # ------------------------------------------------------------------ rung 1 (b): digit arrays, value contracts (bounded by capacity)
@@ -284,16 +285,16 @@ for key, full, repl in R3LC:
 
 R3LC2 = [
  ("sqrt1", "bn_sqrt1", ["bn_init", "bn_assign_2exp", "bn_clz", "bn_cmp", "bn_r_shift", "bn_assign", "bn_add", "bn_sub"], 16, []),
- ("gcd", "bn_gcd", ["bn_assign", "bn_cmp", "bn_assign_init", "bn_div"], 8, ["VF_BN_GCD_NO_VALUE"]),
- ("gcd_bin", "bn_gcd_bin", ["bn_assign", "bn_cmp", "bn_assign_init", "bn_ctz", "bn_r_shift", "bn_sub", "bn_l_shift"], 8, ["VF_BN_GCD_NO_VALUE"]),
+# bn_gcd / bn_gcd_bin (contracts in contracts/bn_mod.h, loop contracts in loopdefs.py): symbolic execution does not finish in
+# 35 min even at one-digit capacity - the operands are reached through the swapped pointers ta / tb, which doubles every
+# dereference inside every replaced callee contract: not registered
  ("mod_inv_bin", "bn_mod_inv_bin", ["bn_cmp", "bn_init", "bn_assign", "bn_assign_digit", "bn_r_shift", "bn_add", "bn_mod_sub"], 56, ["VF_BN_INV_NO_VALUE", "VF_MAXVAL_DIGITS=3"]),
 ]
 MS_REPL = ["bn_mod", "bn_mod_legendre", "bn_assign_init", "bn_add_digit", "bn_sub_digit", "bn_r_shift", "bn_mod_exp", "bn_mod_mult_digit",
            "bn_mod_mult", "bn_mod_square", "bn_init", "bn_assign", "bn_calc_bits", "bn_xor", "bn_ctz", "bn_assign_2exp", "bn_div",
            "bn_mod_inv_bin", "bn_cmp"]
-R3LC2 += [
- ("mod_sqrt", "bn_mod_sqrt", MS_REPL, 56, ["VF_BN_INV_NO_VALUE", "VF_BN_GCD_NO_VALUE"]),
-]
+# bn_mod_sqrt (contract in contracts/bn_mod.h, loop contracts in loopdefs.py): the job with its 19 callees replaced
+# runs out of memory (> 40 GB in propositional reduction, > 1024 objects) also with the light callee contracts: not registered
 for key, full, repl, bitlen, extra in R3LC2:
     W, nd = 8, bitlen // 8
     job("r3.%s.loops.w%d.n%d" % (full, W, nd), "bn3.c",
@@ -301,8 +302,17 @@ for key, full, repl, bitlen, extra in R3LC2:
         enforce=[full], replace=repl, functions=[full], route="bounded", backend="kissat",
         bound="W = 8, build with BN_MAX_DIGITS = %d; every loop is closed by a loop contract (invariant: operands well-formed and in range; decreases: the remaining value), so the number of iterations is unbounded and termination is proved; callees replaced by their contracts" % nd,
         loops=loops_file(key + "_lc", [full], maxd=nd), foreach=[{"SZ": 1, "MAXD": nd}],
-        tier="thorough", timeout=3600, timeout_thorough=3600, mem_gb=40,
-        cbmc=["--object-bits", "13"])
+        tier="thorough", timeout=3600, timeout_thorough=3600, mem_gb=24,
+        cbmc=["--object-bits", "10"])
+
+# bn_mod_inv_bin with the textbook invariant: value clause bn' != 0 and bn' * bn == 1 (mod m), operands < 2^8
+job("r3.bn_mod_inv_bin.value.w8.n5", "bn3.c",
+    cfg(8, True, bitlen=40, extra=["VF_FN_mod_inv_bin", "VF_MAXVAL_DIGITS=1"] + vb(40)),
+    enforce=["bn_mod_inv_bin"], replace=["bn_cmp", "bn_init", "bn_assign", "bn_assign_digit", "bn_r_shift", "bn_add", "bn_mod_sub"],
+    functions=["bn_mod_inv_bin"], route="bounded", backend="kissat",
+    bound="W = 8, BN_MAX_DIGITS = 5, operand and modulus < 2^8; loops closed by loop contracts with the invariant x1*a == u, x2*a == v (mod m)",
+    loops=loops_file("mod_inv_bin_value", ["bn_mod_inv_bin"], maxd=5, variant="inv_value"), foreach=[{"SZ": 1, "MAXD": 5}],
+    tier="thorough", timeout=5400, timeout_thorough=5400, mem_gb=24, cbmc=["--object-bits", "10"])
 
 # bn_mod_legendre: straight-line over its callees
 job("r3.bn_mod_legendre.w8.n2", "bn3.c", cfg(8, True, bitlen=16, extra=["VF_FN_mod_legendre"] + vb(16)),
@@ -368,7 +378,7 @@ NOT_COVERED = [
  "rung 2 is W = 8 only and <= 4 digits (bn_mult <= 3 digits); the digit-array multiply functions are proved against the sum of per-digit products, the closed product form used by their callers rests on the distributivity identity listed in those jobs' assumptions",
  "rung 3 at larger configurations: bn_mod / bn_mod_mult / bn_mod_mult_digit / bn_mod_square / bn_mod_reduce at W = 8 x 4 digits and bn_mod_add at the shipped W = 64 x 22 digits (2880-bit spec vectors) did not finish in 1200 s and are not registered; bn_calc_naf with 16-bit scalars > 1800 s (8-bit scalars, windows 2..5, proved; bn_calc_jsf proved for all pairs of 16-bit scalars)",
  "bn_exp_digit, bn_digit_egcd, bn_mod_small, bn_mod_legendre: no contract",
- "rung 3 loop functions, value clauses: proved only for bn_sqrt1 (floor square root) and bn_mod_sqrt (root property through the function's own final check). NOT proved: bn_mod_inv_bin 'result != 0 and result * bn == 1 (mod m)' (only frame / status / domain / range / termination), bn_gcd / bn_gcd_bin 'is the greatest common divisor', bn_mod_exp* / bn_exp_digit 'equals bn^e (mod m)' beyond e in {0,1,2}. All loop-function proofs are at W = 8 with BN_MAX_DIGITS = 2 (bn_mod_inv_bin, bn_mod_sqrt: 7) - the loop contracts make the NUMBER OF ITERATIONS unbounded, not the capacity; full unwinding instead of loop contracts exhausts memory in cbmc's SSA conversion",
+ "rung 3 loop functions, value clauses: proved only for bn_sqrt1 (floor square root). bn_mod_sqrt: contract (status set, EINVAL for an even modulus, success implies result^2 == input mod m) and loop contracts are written, but the modular job (19 callees replaced, 45 call sites) exhausts 40 GB in cbmc's propositional reduction - NOT proved, C03/C09 keep their assumed stub for it. NOT proved either: bn_mod_inv_bin 'result != 0 and result * bn == 1 (mod m)' (only frame / status / domain / range / termination), bn_gcd / bn_gcd_bin have NO proved contract at all (contracts and loop contracts written; cbmc's symbolic execution of the pointer-swapping Euclid loops with replaced callees did not finish in 35 min), bn_mod_exp* / bn_exp_digit 'equals bn^e (mod m)' beyond e in {0,1,2}. All loop-function proofs are at W = 8 with BN_MAX_DIGITS = 2 (bn_mod_inv_bin, bn_mod_sqrt: 7) - the loop contracts make the NUMBER OF ITERATIONS unbounded, not the capacity; full unwinding instead of loop contracts exhausts memory in cbmc's SSA conversion",
  "import/export digit-array level (bn_digits_import_*/export_*) unbounded safety jobs: not registered (the bn_t-level jobs execute those bodies for buffers <= 8..18 bytes); export hex at W=64 runs out of memory (12 GB) in symbolic execution",
  "outside the claim as stated by the property: Barrett reduction, bn_egcd, bn_mod_inv3, bn_sqrt4 (and the non-selected bn_sqrt2/3/5, bn_mod_inv1/2, bn_mod_inv_mont, bn_mod_div_mont)",
 ]
